@@ -990,6 +990,7 @@ for _p in ("C01", "C02", "C03", "C04", "C10", "C12", "C13"):
     PROPS[_p]["families"].append(sys_family(700, 12000))
     PROPS[_p]["models"].append(sys_model("system-phased", tiers=("quick", "thorough") if _p in ("C12", "C13") else ("thorough",)))
     PROPS[_p]["models"].append(sys_model("system-interleaved", tiers=("thorough",), Phased=False, MaxEnv=6))
+    PROPS[_p]["models"].append(sys_model("system-3conns-2keys-L0", tiers=("thorough",), Conns="{1, 2, 3}", Keys="{1, 2}", L=0, Mif=1, MaxTime=2, MaxEnv=6))
     PROPS[_p]["assumptions"] = PROPS[_p]["assumptions"] + [
         "sys family: listener -> max_channels_per_key -> max_concurrent_requests_per_channel -> execute -> spawn_incoming and spawned "
         "clients on a current-thread tokio runtime with a paused clock, run until idle after (batches of) application steps; "
